@@ -12,27 +12,40 @@ impl<T> Atomic<T> {
         Self(AtomicPtr::default())
     }
 
+    #[cfg_attr(flurry_verif, track_caller)]
     pub(crate) fn load<'g>(&self, ordering: Ordering, guard: &'g Guard<'_>) -> Shared<'g, T> {
+        #[cfg(flurry_verif)]
+        crate::verif::atomic::<T>(crate::verif::Kind::Load, &self.0 as *const _ as usize, 0, 0, Some(ordering), None, crate::verif::guard_flag(guard));
         guard.protect(&self.0, ordering).into()
     }
 
+    #[cfg_attr(flurry_verif, track_caller)]
     pub(crate) fn store(&self, new: Shared<'_, T>, ordering: Ordering) {
+        #[cfg(flurry_verif)]
+        crate::verif::atomic::<T>(crate::verif::Kind::Store, &self.0 as *const _ as usize, new.ptr as usize, 0, Some(ordering), None, 2);
         self.0.store(new.ptr, ordering);
     }
 
+    #[cfg_attr(flurry_verif, track_caller)]
     pub(crate) unsafe fn into_box(self) -> Box<Linked<T>> {
+        #[cfg(flurry_verif)]
+        crate::verif::atomic::<T>(crate::verif::Kind::IntoBox, self.0.load(Ordering::Relaxed) as usize, 0, 0, None, None, 2);
         Box::from_raw(self.0.into_inner())
     }
 
+    #[cfg_attr(flurry_verif, track_caller)]
     pub(crate) fn swap<'g>(
         &self,
         new: Shared<'_, T>,
         ord: Ordering,
         _: &'g Guard<'_>,
     ) -> Shared<'g, T> {
+        #[cfg(flurry_verif)]
+        crate::verif::atomic::<T>(crate::verif::Kind::Swap, &self.0 as *const _ as usize, new.ptr as usize, 0, Some(ord), None, 2);
         self.0.swap(new.ptr, ord).into()
     }
 
+    #[cfg_attr(flurry_verif, track_caller)]
     pub(crate) fn compare_exchange<'g>(
         &self,
         current: Shared<'_, T>,
@@ -41,6 +54,8 @@ impl<T> Atomic<T> {
         failure: Ordering,
         _: &'g Guard<'_>,
     ) -> Result<Shared<'g, T>, CompareExchangeError<'g, T>> {
+        #[cfg(flurry_verif)]
+        crate::verif::atomic::<T>(crate::verif::Kind::Cas, &self.0 as *const _ as usize, current.ptr as usize, new.ptr as usize, Some(success), Some(failure), 2);
         match self
             .0
             .compare_exchange(current.ptr, new.ptr, success, failure)
@@ -61,7 +76,10 @@ impl<T> From<Shared<'_, T>> for Atomic<T> {
 }
 
 impl<T> Clone for Atomic<T> {
+    #[cfg_attr(flurry_verif, track_caller)]
     fn clone(&self) -> Self {
+        #[cfg(flurry_verif)]
+        crate::verif::atomic::<T>(crate::verif::Kind::CloneLoad, &self.0 as *const _ as usize, 0, 0, Some(Ordering::Relaxed), None, 2);
         Atomic(self.0.load(Ordering::Relaxed).into())
     }
 }
@@ -93,11 +111,22 @@ impl<'g, T> Shared<'g, T> {
         Shared::from(ptr::null_mut())
     }
 
+    #[cfg_attr(flurry_verif, track_caller)]
+    #[cfg_attr(flurry_verif, allow(unreachable_code))]
     pub(crate) fn boxed(value: T, collector: &Collector) -> Self {
+        #[cfg(flurry_verif)]
+        return {
+            let s = Shared::from(collector.link_boxed(value));
+            crate::verif::atomic::<T>(crate::verif::Kind::Alloc, s.ptr as usize, std::mem::size_of::<Linked<T>>(), 0, None, None, 2);
+            s
+        };
         Shared::from(collector.link_boxed(value))
     }
 
+    #[cfg_attr(flurry_verif, track_caller)]
     pub(crate) unsafe fn into_box(self) -> Box<Linked<T>> {
+        #[cfg(flurry_verif)]
+        crate::verif::atomic::<T>(crate::verif::Kind::IntoBox, self.ptr as usize, 0, 0, None, None, 2);
         Box::from_raw(self.ptr)
     }
 
@@ -105,11 +134,17 @@ impl<'g, T> Shared<'g, T> {
         self.ptr
     }
 
+    #[cfg_attr(flurry_verif, track_caller)]
     pub(crate) unsafe fn as_ref(&self) -> Option<&'g Linked<T>> {
+        #[cfg(flurry_verif)]
+        crate::verif::atomic::<T>(crate::verif::Kind::Deref, self.ptr as usize, 0, 0, None, None, 2);
         self.ptr.as_ref()
     }
 
+    #[cfg_attr(flurry_verif, track_caller)]
     pub(crate) unsafe fn deref(&self) -> &'g Linked<T> {
+        #[cfg(flurry_verif)]
+        crate::verif::atomic::<T>(crate::verif::Kind::Deref, self.ptr as usize, 0, 0, None, None, 2);
         &*self.ptr
     }
 
@@ -148,7 +183,10 @@ pub(crate) trait RetireShared {
 }
 
 impl RetireShared for Guard<'_> {
+    #[cfg_attr(flurry_verif, track_caller)]
     unsafe fn retire_shared<T>(&self, shared: Shared<'_, T>) {
+        #[cfg(flurry_verif)]
+        crate::verif::atomic::<T>(crate::verif::Kind::Retire, shared.ptr as usize, 0, crate::verif::guard_flag(self) as usize, None, None, crate::verif::guard_flag(self));
         self.defer_retire(shared.ptr, seize::reclaim::boxed::<Linked<T>>);
     }
 }
